@@ -98,8 +98,9 @@ impl Position {
         let y_ext = self.y_def();
         if let (Some((x1, x2)), Some((y1, y2))) = (x_ext, y_ext) {
             Some(BoundingBox::new(x1, y1, x2, y2))
-        } else if self.shape == "point" {
-            // For points, we don't need extent at all, just at least one x and at least one y
+        } else if self.shape == "point" || self.shape == "text" {
+            // For points (and the anchor of a text), we don't need extent at all, just at
+            // least one x and at least one y
             let px = self.xmin.or(self.xmax.or(self.cx));
             let py = self.ymin.or(self.ymax.or(self.cy));
             if let (Some(x), Some(y)) = (px, py) {
@@ -231,6 +232,14 @@ impl Position {
                     element.set_attr("x", &fstr(x1 + self.dx.unwrap_or(0.)));
                     element.set_attr("y", &fstr(y1 + self.dy.unwrap_or(0.)));
                     element.remove_attrs(&["dx", "dy", "x1", "y1", "x2", "y2", "cx", "cy"]);
+                }
+                "text" => {
+                    // a text is anchored at x / y, however the anchor was spelled; dx / dy
+                    // are native attributes of a text and stay
+                    let (x1, y1) = bbox.locspec(LocSpec::TopLeft);
+                    element.set_attr("x", &fstr(x1));
+                    element.set_attr("y", &fstr(y1));
+                    element.remove_attrs(&["x1", "y1", "x2", "y2", "cx", "cy"]);
                 }
                 "g" => {
                     let (x1, y1) = bbox.locspec(LocSpec::TopLeft);
